@@ -28,7 +28,7 @@ import elementpath.aliases as ta
 
 from elementpath.exceptions import ElementPathError
 from elementpath.tdop import MultiLabel
-from elementpath.helpers import Patterns, is_xml_codepoint, node_position
+from elementpath.helpers import Patterns, get_double, is_xml_codepoint, node_position
 from elementpath.namespaces import get_expanded_name, split_expanded_name, \
     XPATH_FUNCTIONS_NAMESPACE
 from elementpath.datatypes import NumericProxy, QName, Date, DateTime, Time, AnyURI
@@ -331,33 +331,47 @@ def evaluate__pi(self: XPathFunction, context: ta.ContextType = None) -> float:
 @method(function('exp', prefix='math', nargs=1, sequence_types=('xs:double?', 'xs:double?')))
 def evaluate__exp(self: XPathFunction, context: ta.ContextType = None) -> ta.OneOrEmpty[float]:
     arg: ta.NumericType = self.get_argument(self.context or context, cls=NumericProxy)
+    if arg is not None:
+        arg = get_double(arg)  # an xs:double parameter: an integer beyond its range becomes INF
     if arg is None:
         return []
-    return math.exp(arg)
+    try:
+        return math.exp(arg)
+    except OverflowError:
+        return math.inf
 
 
 @method(function('exp10', prefix='math', nargs=1, sequence_types=('xs:double?', 'xs:double?')))
 def evaluate__exp10(self: XPathFunction, context: ta.ContextType = None) -> ta.OneOrEmpty[float]:
     arg: ta.NumericType = self.get_argument(self.context or context, cls=NumericProxy)
+    if arg is not None:
+        arg = get_double(arg)  # an xs:double parameter: an integer beyond its range becomes INF
     if arg is None:
         return []
-    return float(10 ** arg)
+    try:
+        return float(10 ** arg)
+    except OverflowError:
+        return math.inf
 
 
 @method(function('log', prefix='math', nargs=1, sequence_types=('xs:double?', 'xs:double?')))
 def evaluate__log(self: XPathFunction, context: ta.ContextType = None) -> ta.OneOrEmpty[float]:
     arg: ta.NumericType | None = self.get_argument(self.context or context, cls=NumericProxy)
+    if arg is not None:
+        arg = get_double(arg)  # an xs:double parameter: an integer beyond its range becomes INF
     if arg is None:
         return []
-    return float('-inf') if not arg else math.nan if arg <= -1 else math.log(arg)
+    return float('-inf') if not arg else math.nan if arg < 0 else math.log(arg)
 
 
 @method(function('log10', prefix='math', nargs=1, sequence_types=('xs:double?', 'xs:double?')))
 def evaluate__log10(self: XPathFunction, context: ta.ContextType = None) -> ta.OneOrEmpty[float]:
     arg: ta.NumericType | None = self.get_argument(self.context or context, cls=NumericProxy)
+    if arg is not None:
+        arg = get_double(arg)  # an xs:double parameter: an integer beyond its range becomes INF
     if arg is None:
         return []
-    return float('-inf') if not arg else math.nan if arg <= -1 else math.log10(arg)
+    return float('-inf') if not arg else math.nan if arg < 0 else math.log10(arg)
 
 
 @method(function('pow', prefix='math', nargs=2,
@@ -374,15 +388,21 @@ def evaluate__pow(self: XPathFunction, context: ta.ContextType = None) -> ta.One
         return math.copysign(float('inf'), x) if (y % 2) == 1 else float('inf')
 
     try:
-        return float(x ** y)
+        if not isinstance(y, int):
+            y = get_double(y)
+        return float(get_double(x) ** y)
     except TypeError:
         return math.nan
+    except OverflowError:
+        return -math.inf if x < 0 and isinstance(y, int) and y % 2 else math.inf
 
 
 @method(function('sqrt', prefix='math', nargs=1,
                  sequence_types=('xs:double?', 'xs:double?')))
 def evaluate__sqrt(self: XPathFunction, context: ta.ContextType = None) -> ta.OneOrEmpty[float]:
     arg: ta.NumericType | None = self.get_argument(self.context or context, cls=NumericProxy)
+    if arg is not None:
+        arg = get_double(arg)  # an xs:double parameter: an integer beyond its range becomes INF
     if arg is None:
         return []
     elif arg < 0:
@@ -394,6 +414,8 @@ def evaluate__sqrt(self: XPathFunction, context: ta.ContextType = None) -> ta.On
                  sequence_types=('xs:double?', 'xs:double?')))
 def evaluate__sin(self: XPathFunction, context: ta.ContextType = None) -> ta.OneOrEmpty[float]:
     arg: ta.NumericType | None = self.get_argument(self.context or context, cls=NumericProxy)
+    if arg is not None:
+        arg = get_double(arg)  # an xs:double parameter: an integer beyond its range becomes INF
     if arg is None:
         return []
     elif math.isinf(arg):
@@ -405,6 +427,8 @@ def evaluate__sin(self: XPathFunction, context: ta.ContextType = None) -> ta.One
                  sequence_types=('xs:double?', 'xs:double?')))
 def evaluate__cos(self: XPathFunction, context: ta.ContextType = None) -> ta.OneOrEmpty[float]:
     arg: ta.NumericType | None = self.get_argument(self.context or context, cls=NumericProxy)
+    if arg is not None:
+        arg = get_double(arg)  # an xs:double parameter: an integer beyond its range becomes INF
     if arg is None:
         return []
     elif math.isinf(arg):
@@ -416,6 +440,8 @@ def evaluate__cos(self: XPathFunction, context: ta.ContextType = None) -> ta.One
                  sequence_types=('xs:double?', 'xs:double?')))
 def evaluate__tan(self: XPathFunction, context: ta.ContextType = None) -> ta.OneOrEmpty[float]:
     arg: ta.NumericType | None = self.get_argument(self.context or context, cls=NumericProxy)
+    if arg is not None:
+        arg = get_double(arg)  # an xs:double parameter: an integer beyond its range becomes INF
     if arg is None:
         return []
     elif math.isinf(arg):
@@ -427,6 +453,8 @@ def evaluate__tan(self: XPathFunction, context: ta.ContextType = None) -> ta.One
                  sequence_types=('xs:double?', 'xs:double?')))
 def evaluate__asin(self: XPathFunction, context: ta.ContextType = None) -> ta.OneOrEmpty[float]:
     arg: ta.NumericType | None = self.get_argument(self.context or context, cls=NumericProxy)
+    if arg is not None:
+        arg = get_double(arg)  # an xs:double parameter: an integer beyond its range becomes INF
     if arg is None:
         return []
     elif arg < -1 or arg > 1:
@@ -438,6 +466,8 @@ def evaluate__asin(self: XPathFunction, context: ta.ContextType = None) -> ta.On
                  sequence_types=('xs:double?', 'xs:double?')))
 def evaluate__acos(self: XPathFunction, context: ta.ContextType = None) -> ta.OneOrEmpty[float]:
     arg: ta.NumericType | None = self.get_argument(self.context or context, cls=NumericProxy)
+    if arg is not None:
+        arg = get_double(arg)  # an xs:double parameter: an integer beyond its range becomes INF
     if arg is None:
         return []
     elif arg < -1 or arg > 1:
@@ -449,6 +479,8 @@ def evaluate__acos(self: XPathFunction, context: ta.ContextType = None) -> ta.On
                  sequence_types=('xs:double?', 'xs:double?')))
 def evaluate__atan(self: XPathFunction, context: ta.ContextType = None) -> ta.OneOrEmpty[float]:
     arg: ta.NumericType | None = self.get_argument(self.context or context, cls=NumericProxy)
+    if arg is not None:
+        arg = get_double(arg)  # an xs:double parameter: an integer beyond its range becomes INF
     if arg is None:
         return []
     return math.atan(arg)
@@ -462,7 +494,7 @@ def evaluate__atan2(self: XPathFunction, context: ta.ContextType = None) -> ta.O
 
     x = self.get_argument(context, cls=NumericProxy)
     y = self.get_argument(context, index=1, required=True, cls=NumericProxy)
-    return math.atan2(x, y)
+    return math.atan2(get_double(x), get_double(y))
 
 
 ###
